@@ -68,6 +68,17 @@ void __msan_check_mem_is_initialized(const volatile void *x, size_t size);
 #  define MSAN_CHECK(p, n) ((void)0)
 #endif
 
+#if defined(VERIF_MSAN)
+/* clang 14's MSan has no interceptor for explicit_bzero: the libc routine's stores would be invisible and
+ * every wiped state object would look uninitialised.  In MSan builds only, an equivalent instrumented
+ * definition takes its place (tool limitation, not a change of behaviour). */
+void explicit_bzero(void *p, size_t n)
+{
+    memset(p, 0, n);
+    __asm__ volatile("" : : "r"(p) : "memory");
+}
+#endif
+
 /* Valgrind client requests, only when the build asks for them. */
 #if defined(VERIF_VALGRIND)
 #  include <valgrind/memcheck.h>
@@ -127,7 +138,6 @@ static inline void fill_random(rng_t *r, uint8_t *p, size_t n) { fill_class(r, p
 /* ---------------------------------------------------------------- output */
 
 static char g_case[1024] = "{}";      /* descriptor of the case now running */
-static const char *g_phase = "";
 
 static inline void set_case(const char *fmt, ...)
 {
